@@ -74,8 +74,18 @@ class FileSystemArtifactStore(SerializedArtifactStore):
 
         serializer = serializer_factory.from_data_format(fmt)
 
-        with self._open(self._ensure_dir() / f'{node_id}.{fmt.value}', serializer, 'w') as file:
-            serializer.dump(data, file)
+        path = self._ensure_dir() / f'{node_id}.{fmt.value}'
+
+        try:
+            with self._open(path, serializer, 'w') as file:
+                serializer.dump(data, file)
+
+        except Exception:
+            # A failed save must not make the artifact appear saved
+            if path.exists():
+                path.unlink()
+
+            raise
 
     @dont_use_for_prod
     async def load(self, node_id: NodeId) -> NodeResultT:
